@@ -222,8 +222,10 @@ fn exec(ctx: &mut Ctx, arena: &Arena, st: &Arena, spec: &Spec) {
                                 Out::Val(other) => ctx.violation("c19/name", || format!("entry #{}: name() = {:?}, the designated string table (entry {}) gives {:?}", idx, other.map(|x| x.1), spec.shndx, String::from_utf8_lossy(want))),
                                 Out::Panic => ctx.violation("c19/spurious-panic/name", || format!("name() panicked with a valid string-table index: {:?}", spec)),
                             }
-                        } else if fitting && spec.shndx >= spec.n {
-                            // index outside the table: must be refused when a name is asked for
+                        } else if fitting && spec.shndx >= spec.n && (spec.shndx as u64 + 1) * spec.entsize as u64 > spec.b as u64 {
+                            // the designated string-table entry reaches outside the tag: must be refused when a
+                            // name is asked for (an index beyond the count but still inside the tag's bytes is
+                            // not constrained by the property: name() is not called then)
                             match ctx.call("name(out-of-table)", || s.name().map(|n| n.len())) {
                                 Out::Panic => ctx.class("elf:name-refused"),
                                 Out::Val(x) => ctx.violation("c19/name-outside-table", || format!("name() returned {:?} although the string-table index {} is outside the {} entries", x, spec.shndx, spec.n)),
